@@ -3,7 +3,7 @@ from __future__ import annotations
 
 from ..driver import Knockout, sub_nth, sub_once
 from ..report import Ctx
-from ..rules import solvers
+from ..rules import shapes, solvers
 from ..rules.solvers import EVO, HYB, SB
 
 EXPLANATION = (
@@ -22,6 +22,7 @@ def run(ctx: Ctx) -> None:
     solvers.rule_rng(ctx)
     solvers.rule_sethash(ctx, [EVO, HYB, SB])
     solvers.rule_hof_copy(ctx)
+    shapes.rule_hof_order(ctx)
     solvers.rule_result_provenance(ctx, EVO, "EvolutionarySolver.solve", True)
     ctx.floor("own.rng", 12)
     ctx.floor("effect.hof-copy", 6)
@@ -29,6 +30,8 @@ def run(ctx: Ctx) -> None:
 
 
 KNOCKOUTS = [
+    Knockout("hof-order-gt", SB, sub_once("                elif score < self.hof[i][0]:", "                elif score > self.hof[i][0]:"), "hof.order", "update_hof"),
+    Knockout("hof-order-wrong-position", SB, sub_nth("self.hof.insert(i, (score, circuit.copy()))", "self.hof.insert(0, (score, circuit.copy()))", 1), "hof.order", "update_hof"),
     Knockout("C6-default-rng", EVO, sub_nth("        ind = np.random.randint(len(possible_edge_pairs))", "        ind = np.random.default_rng().integers(len(possible_edge_pairs))", 0),
              "own.rng", "default_rng"),
     Knockout("C6-seed-drops-random", SB, sub_once("        np.random.seed(seed)\n        random.seed(seed)", "        np.random.seed(seed)"), "own.rng", "random.seed"),
